@@ -402,6 +402,7 @@ func runFcHistory(b *fw.B, cat fcCat, p fcParams, hNo int) {
 	type epochs struct{ je, fe common.Epoch }
 	nodeEpochs := map[common.Root]epochs{anchorRoot: {e0, e0}}
 	nOps := 5 + b.Rng.IntN(p.maxOps)
+	lastBlock := anchorRoot
 	forks, gapVotes, lateBlocks, updates := 0, 0, 0, 0
 	for op := 0; op < nOps && !h.dead && !b.Stop(); op++ {
 		alive := h.m.AliveRefs()
@@ -418,11 +419,14 @@ func runFcHistory(b *fw.B, cat fcCat, p fcParams, hNo int) {
 		switch {
 		case r < 34: // ProcessBlock
 			parent := knownRoots[b.Rng.IntN(len(knownRoots))]
+			if _, ok := h.m.GetSlot(lastBlock); ok && b.Rng.IntN(10) < 5 {
+				parent = lastBlock // grow a long chain so that several epoch boundaries (checkpoints) exist
+			}
 			if b.Rng.IntN(20) == 0 {
 				parent = h.roots[b.Rng.IntN(len(h.roots))] // maybe unknown / pruned
 			}
 			ps, _ := h.m.GetSlot(parent)
-			slot := ps + 1 + common.Slot(b.Rng.IntN(3))
+			slot := ps + 1 + common.Slot(b.Rng.IntN(4))
 			switch b.Rng.IntN(12) {
 			case 0:
 				slot = ps + common.Slot(b.Rng.IntN(2*int(spe)))
@@ -473,6 +477,7 @@ func runFcHistory(b *fw.B, cat fcCat, p fcParams, hNo int) {
 			if wok {
 				if _, have := nodeEpochs[root]; !have {
 					nodeEpochs[root] = ne
+					lastBlock = root
 				}
 			}
 			b.CountIf(wok, "blocks_inserted")
@@ -594,12 +599,21 @@ func (h *fcHarness) doUpdate(nVals int, mkBalances func(int) []common.Gwei, spe 
 	switch {
 	case kind < 6 && len(cands) > 0: // plausible: justified ahead, finalized an ancestor of it (maybe unchanged)
 		j := cands[b.Rng.IntN(len(cands))]
+		var ahead []cand
+		for _, c := range cands {
+			if c.cp.Epoch > just.Epoch {
+				ahead = append(ahead, c)
+			}
+		}
+		if len(ahead) > 0 {
+			j = ahead[b.Rng.IntN(len(ahead))]
+		}
 		just = j.cp
-		if b.Rng.IntN(2) == 0 {
-			// finalized: an ancestor checkpoint of j
+		if b.Rng.IntN(3) != 0 {
+			// finalized: an ancestor checkpoint of j, ahead of the current one
 			var anc []cand
 			for _, c := range cands {
-				if c.node != j.node && h.m.InTSubtree(c.node, j.node) {
+				if c.node != j.node && c.cp.Epoch > fin.Epoch && h.m.InTSubtree(c.node, j.node) {
 					anc = append(anc, c)
 				}
 			}
